@@ -44,8 +44,16 @@ VALUE_SORTS = {
   "Model.sensor_touch_adr": "nsensor",
   "Model.sensor_tendonactfrc_adr": "nsensor",
   "Model.body_tree": "nbody",
+  # flex address tables (confirmed against the field docs in types.py: "first <x> address", "<x> body ids")
+  "Model.flex_vertadr": "nflexvert",
+  "Model.flex_edgeadr": "nflexedge",
+  "Model.flex_elemadr": "nflexelem",
+  "Model.flex_nodeadr": "nflexnode",
+  "Model.flex_vertbodyid": "nbody",
+  "Model.flex_nodebodyid": "nbody",
   "expr:body_tree": "nbody",
   "Data.contact.worldid": "nworld",
+  "Data.contact.efc_address": "njmax",
 }
 
 # launch extents (host text suffix) -> index space of the thread index
@@ -67,6 +75,10 @@ EXTENT_SORTS = {
   ".nmocap": "nmocap",
   ".ntree": "ntree",
   ".nflex": "nflex",
+  ".nflexvert": "nflexvert",
+  ".nflexedge": "nflexedge",
+  ".nflexelem": "nflexelem",
+  ".nflexnode": "nflexnode",
   ".nwrap": "nwrap",
   ".naconmax": "naconmax",
   ".njmax": "njmax",
